@@ -123,8 +123,15 @@ def graphs(run, rng, n):
         kind = rng.choice(["reduce", "reduce", "reduce", "reduce-dasklabels", "reduce-dasklabels", "scan", "rangeindex-outofrange", "rangeindex-outofrange"])
         vals = np.array([I.unf(v) for v in G.rand_vals(rng, m, alphabet=G.ALPHA_FINITE + ["nan"], p_special=0.15)], dtype=float)
         labels = np.array([rng.randrange(4) for _ in range(m)])
-        chunks = tuple(G.random_composition(rng, m, 4))
-        desc = {"kind": kind, "vals": [I.fnum(x) for x in vals], "labels": labels.tolist(), "chunks": list(chunks)}
+        lstyle = rng.random()
+        if lstyle < 0.25:
+            labels = np.sort(labels)                     # most groups confined to one block: single-block cohorts
+        elif lstyle < 0.35:
+            labels = np.array(([0] + [1] * 3 + [2] * 3 + [3, 3] + [1, 2] * 3)[:m])   # a one-block cohort sharing its block with wider ones
+        chunks = tuple(G.random_composition(rng, m, 4)) if rng.random() < 0.85 else (m,)
+        if rng.random() < 0.3 and kind != "scan":
+            vals = np.array([rng.randint(-3, 3) for _ in range(m)], dtype="int64")
+        desc = {"kind": kind, "vals": [I.fnum(x) for x in vals], "labels": labels.tolist(), "chunks": list(chunks), "dtype": str(vals.dtype)}
         try:
             with warnings.catch_warnings(), dask.config.set(scheduler="sync", split_every=rng.choice([2, 4])):
                 warnings.simplefilter("ignore")
@@ -162,6 +169,11 @@ def graphs(run, rng, n):
                             kw["fill_value"] = xrdtypes.NA
                             kw["min_count"] = 1
                             desc["fill"] = "xrdtypes.NA"
+                    if "fill_value" in kw and kw["fill_value"] is not False and "min_count" not in kw and rng.random() < 0.6:
+                        # a numeric fill of the result's own dtype and a min_count that really masks small groups
+                        kw["min_count"] = rng.choice([1, 2, 3])
+                        kw["fill_value"] = rng.choice([-1, -1.0])
+                        desc.update(min_count=kw["min_count"], fill=repr(kw["fill_value"]))
                     if method == "blockwise":
                         order = np.argsort(labels, kind="stable")
                         vals2, labels2 = np.asarray(arr)[order], labels[order]
@@ -173,6 +185,47 @@ def graphs(run, rng, n):
         run.count(json.dumps(desc, sort_keys=True, default=str), len(chunks) > 1)
         check_graph(run, res, desc, rng)
     run.sample({"graph_case": desc})
+
+
+def few_block_graphs(run, rng, n):
+    """graphs whose final aggregation task receives ONE block (a single-block array, or a cohort confined to one block that
+    also hosts members of other cohorts), grouped-combine reductions, a min_count that really masks and a fill of the
+    result's own dtype: the aggregate task must not write into the block-level result another task produced"""
+    import dask
+    import dask.array as da
+    import numpy as np
+
+    import flox
+
+    desc = None
+    for _ in range(n):
+        m = rng.randint(5, 12)
+        labels = np.sort(np.array([rng.randrange(4) for _ in range(m)])) if rng.random() < 0.6 else np.array(([0] + [1] * 3 + [2] * 3 + [3, 3] + [1, 2] * 3)[:m])
+        isint = rng.random() < 0.6
+        vals = np.array([rng.randint(-3, 3) for _ in range(m)], dtype="int64" if isint else "float64")
+        if not isint and rng.random() < 0.4:
+            vals[rng.randrange(m)] = np.nan
+        chunks = rng.choice([(m,), (m // 2, m - m // 2), tuple(G.random_composition(rng, m, 4))])
+        func = rng.choice(["argmax", "argmin", "nanargmax", "nanargmin", "nanfirst", "nanlast", "first", "last", "sum", "nanmax", "count"])
+        method = rng.choice(["map-reduce", "cohorts", None])
+        bydask = func in ("sum", "nanmax", "count") or rng.random() < 0.2
+        kw = {"min_count": rng.choice([1, 2, 3]), "fill_value": rng.choice([-1, -1.0])}
+        desc = {"kind": "few-blocks", "func": func, "method": method, "vals": [I.fnum(x) for x in vals], "labels": labels.tolist(), "chunks": list(chunks),
+                "dtype": str(vals.dtype), "labels_in_dask": bydask, "min_count": kw["min_count"], "fill": repr(kw["fill_value"])}
+        try:
+            with warnings.catch_warnings(), dask.config.set(scheduler="sync"):
+                warnings.simplefilter("ignore")
+                arr = da.from_array(vals, chunks=(chunks,))
+                if bydask:
+                    res, _ = flox.groupby_reduce(arr, da.from_array(labels, chunks=(chunks,)), func=func, **kw)
+                else:
+                    res, _ = flox.groupby_reduce(arr, labels, func=func, method=method, expected_groups=np.arange(5), **kw)
+        except (ValueError, NotImplementedError):
+            continue
+        run.count(json.dumps(desc, sort_keys=True, default=str), True)
+        check_graph(run, res, desc, rng)
+    if desc:
+        run.sample({"few_block_case": desc})
 
 
 def user_aggregation_reuse(run, rng, n):
@@ -266,6 +319,7 @@ def run(run: C.Run):
         (C.WORK / "C13").mkdir(parents=True, exist_ok=True)
         run.extra["functions_that_may_store_into_their_parameters"] = offending_functions()
     graphs(run, rng, 2500 if thorough else 260)
+    few_block_graphs(run, rng, 800 if thorough else 90)
     threaded_shared(run, rng, 60 if thorough else 8)
     user_aggregation_reuse(run, rng, 400 if thorough else 60)
     if any(not o[1] for o in run.obligations) and not run.violations:
@@ -285,3 +339,4 @@ def run(run: C.Run):
 def replay(run: C.Run, path):
     P.front(run, translators=("registry", "effects"))
     graphs(run, random.Random(run.seed), 150)
+    few_block_graphs(run, random.Random(run.seed), 150)
